@@ -110,6 +110,16 @@ def gen_cases(chk):
         cases.append((op, a, b))
     # small bases first, then bases that agree with them modulo a power of two (what a memo keyed too coarsely would confuse)
     cases += [c for c in extra_pow if -(2 ** 63) <= c[1] < 2 ** 63]
+    for a in (-1, 0, 1, 2, -2):
+        for b in (63, 64, 65, 2 ** 53 + 1, 2 ** 53 + 2, 2 ** 63 - 1, 2 ** 63 - 2):
+            cases.append(("**", a, b))
+    for m in (3, 7, -3, 5, 1, -1):
+        for k in (2 ** 53 + 1, 2 ** 53 + 3, 2 ** 54 + 1, 2 ** 60 + 1, 9007199254740993):
+            if -(2 ** 63) <= k * m < 2 ** 63:
+                for op in ("/", "//", "%"):
+                    cases.append((op, k * m, m))
+    for op in ("/", "//", "%", "*"):
+        cases.append((op, -(2 ** 63), -1))
     return cases
 
 
